@@ -571,6 +571,45 @@ def mask_interp(t, name):
     return 'other:' + ','.join(bad)
 
 
+def supplied_keys(fn):
+    """string keys a parameter method puts into the parameter dictionary (dict literals, .update(k=...), d['k'] = ...)"""
+    ks = set()
+    for n in ast.walk(fn):
+        if isinstance(n, ast.Dict):
+            for k in n.keys:
+                if isinstance(k, ast.Constant) and isinstance(k.value, str):
+                    ks.add(k.value)
+        if isinstance(n, ast.Call) and isinstance(n.func, ast.Attribute) and n.func.attr == 'update':
+            for kw in n.keywords:
+                if kw.arg:
+                    ks.add(kw.arg)
+        if isinstance(n, ast.Assign):
+            for tg in n.targets:
+                if isinstance(tg, ast.Subscript) and isinstance(tg.slice, ast.Constant) and isinstance(tg.slice.value, str):
+                    ks.add(tg.slice.value)
+    return ks
+
+
+def param_use(t, name):
+    """(keys the class's parameter methods supply -- get_params, get_params_dependent_on_targets and update_params
+    over the whole MRO --, [(target method, its named formals after the data argument)]) for the target methods the
+    class (not the framework bases) defines"""
+    keys = set()
+    for c in t.mro(name):
+        if c not in t.classes:
+            continue
+        for b in t.classes[c][0].body:
+            if isinstance(b, ast.FunctionDef) and b.name in ('get_params', 'get_params_dependent_on_targets', 'update_params'):
+                keys |= supplied_keys(b)
+    meths = []
+    for m in ('apply', 'apply_to_mask', 'apply_to_masks', 'apply_to_bbox', 'apply_to_bboxes', 'apply_to_keypoint',
+              'apply_to_keypoints', 'apply_to_dicom'):
+        fn, owner = t.find(name, m)
+        if fn is not None and owner not in BASES:
+            meths.append((m, [a.arg for a in fn.args.args][2:] + [a.arg for a in fn.args.kwonlyargs]))
+    return sorted(keys), meths
+
+
 def main(out_dir):
     t = Tables()
     t.load()
@@ -703,6 +742,13 @@ def main(out_dir):
     lines.append('(* get_dict_with_id (the replay record) of the composition classes: class, [(key, attribute read)] *)')
     lines.append('Definition record_table : list (string * list (string * string)) := [')
     lines.append(';\n'.join('  (%s, [%s])' % (q(d['class']), '; '.join('(%s, %s)' % (q(k), q(a)) for k, a in d['pairs'])) for d in record))
+    lines.append('].')
+    lines.append('')
+    lines.append('(* parameter use: class, keys its parameter methods supply, [(target method, named formals)] *)')
+    lines.append('Definition param_table : list (string * list string * list (string * list string)) := [')
+    puse = [(n,) + param_use(t, n) for n in names]
+    lines.append(';\n'.join('  (%s, %s, [%s])' % (q(n), slist(ks), '; '.join('(%s, %s)' % (q(m), slist(fs)) for m, fs in ms))
+                            for n, ks, ms in puse))
     lines.append('].')
     text = '\n'.join(lines) + '\n'
     path = os.path.join(out_dir, 'Gen_classtab.v')
